@@ -70,6 +70,18 @@ def lastIndex (c : UInt8) : Bytes → Option Nat
     | some i => some (i + 1)
     | none => if x = c then some 0 else none
 
+/-- a loop that maps every element and returns early (`none`) on the first
+    element that has no image: `for … { d := f(c); if d == -1 { return err }; out = append(out, d) }` -/
+def mapOpt {α β : Type} (f : α → Option β) : List α → Option (List β)
+  | [] => some []
+  | a :: as =>
+    match f a with
+    | none => none
+    | some b =>
+      match mapOpt f as with
+      | none => none
+      | some bs => some (b :: bs)
+
 /-! ## charset -/
 
 /-- "qpzry9x8gf2tvdw0s3jn54khce6mua7l" -/
@@ -166,7 +178,7 @@ def encode (hrp data : Bytes) : Except Err Bytes :=
     else
       let lower := toLower hrp == hrp
       let hrp := toLower hrp
-      match (values ++ createChecksum hrp values).mapM charsetAt with
+      match mapOpt charsetAt (values ++ createChecksum hrp values) with
       | none => .error .indexPanic
       | some cs =>
         let ret := hrp ++ [0x31] ++ cs
@@ -186,7 +198,7 @@ def decode (s : Bytes) : Except Err (Bytes × Bytes) :=
         if hasBadByte hrp then .error .badHrpChar         -- unreachable after the first loop
         else
           let s' := toLower s
-          match (s'.drop (pos + 1)).mapM charsetIdx with
+          match mapOpt charsetIdx (s'.drop (pos + 1)) with
           | none => .error .badDataChar
           | some data =>
             if !verifyChecksum hrp data then .error .badChecksum
